@@ -1071,15 +1071,6 @@ fn verdict_class(v: &str) -> String {
 }
 
 fn wire_case(c: &WireCase, known_phi_open: bool) -> Report {
-    let t_dbg = std::time::Instant::now();
-    let r = wire_case_inner(c, known_phi_open);
-    if std::env::var("VERIF_DEBUG").is_ok() && t_dbg.elapsed().as_millis() > 100 {
-        eprintln!("SLOW {} ms labels={:?} case={:.600}", t_dbg.elapsed().as_millis(), r.labels, format!("{:?}", c.src));
-    }
-    r
-}
-
-fn wire_case_inner(c: &WireCase, known_phi_open: bool) -> Report {
     let mut rep = Report::new();
     let Some(built) = chain_cached(&c.ctx) else {
         rep.discard("context chain does not build");
@@ -1303,9 +1294,12 @@ pub fn run(args: &Args) -> i32 {
         .require_label("verdict-ok")
         .require_label("kind:genesis")
         .require_label("src:free");
+    if std::env::var("VERIF_WRITE_WITNESS_REPLAYS").is_ok() {
+        write_witness_replays();
+    }
     let t = check.tier;
-    let known_open = [check.has_open_known(KEY_MSD_CSD), check.has_open_known(KEY_CTX_CDB)];
-    let known_phi_open = check.has_open_known(KEY_PHI);
+    let known_open = [!args.strict && check.has_open_known(KEY_MSD_CSD), !args.strict && check.has_open_known(KEY_CTX_CDB)];
+    let known_phi_open = !args.strict && check.has_open_known(KEY_PHI);
 
     // per-run pool of honest chains: real keys / signatures and verification contexts
     let pool_chains: Vec<ChainSpec> = if check.is_replay() { vec![] } else { chain_pool(check.seed, t.pick(10, 40) as usize, 3, check.threads) };
@@ -1389,6 +1383,31 @@ pub fn run(args: &Args) -> i32 {
         check.witness(KEY_PHI, "a phi_f at a fixed-point rounding tie does not survive serde_json (certificate hash changes over the wire)", witness_phi);
     }
     check.finish()
+}
+
+/// development aid (never set by the registered commands): write a hand-minimised replay of the phi_f finding
+fn write_witness_replays() {
+    let root = std::env::var("VERIF_ROOT").unwrap_or_else(|_| "/verif".into());
+    let dir = std::path::Path::new(&root).join("replays").join("C04");
+    let _ = std::fs::create_dir_all(&dir);
+    let plan = CertPlan { link: 0, same_epoch_first: false, entity: 0, n1: 0, n2: 0, seed: 1 };
+    let ctx = ChainSpec {
+        genesis_seed: 1,
+        start_epoch: 1,
+        constant: true,
+        worlds: vec![WorldSpec { seed: 11, stakes: vec![100, 200], params: PSpec::new(2, 8, 1.0) }, WorldSpec { seed: 12, stakes: vec![150, 250], params: PSpec::new(2, 8, 1.0) }],
+        epochs: vec![vec![], vec![plan]],
+        network: "testnet".into(),
+    };
+    // 0x3fde55e75fffffff = 0.47399315237998957: one ulp below the tie 7952285.5 / 2^24
+    let case = WireCase {
+        ctx,
+        src: Src::Chain { idx: u16::MAX, change: Some(Change::Phi(PhiEdit::SetBits(0x3fde55e75fffffff))), rehash: true },
+        prev: 0,
+        reser: Reser { perm: 0, ws: 0, opt: 0, num: 0, esc: 0 },
+    };
+    let body = serde_json::json!({"property": "C04", "section": "wire-roundtrip", "seed": 0, "tier": "quick", "key": KEY_PHI, "what": "hand-minimised witness case", "case": case});
+    let _ = std::fs::write(dir.join("witness-phi_f-not-preserved.json"), serde_json::to_string_pretty(&body).unwrap());
 }
 
 /// scan fixed-point ties (2j+1)/2^25: does the JSON round trip of the certificate message part change the hashed value?
